@@ -16,8 +16,8 @@ import (
 
 func init() {
 	register(&propDef{
-		ID:  "C07",
-		Run: ruleC07,
+		ID:          "C07",
+		Run:         ruleC07,
 		Explanation: "Decides that every potentially panicking instruction on the per-line path is discharged by a local guard and that the scan loop never stops early (structural necessary conditions of C07): (R1) every unchecked type assertion is dominated by a successful comma-ok assertion of the same value to the same type or is a listed exception; every index/slice expression with a non-constant bound is the loop index of a range over the same slice, is implied by dominating len comparisons (small linear reasoning on len(x)+c), or indexes a key-path parameter that is non-empty at every call site; no integer division by a non-constant, no explicit panic, constant regexps compile; (R2) the only exits from inside the scan loop are returns of a non-nil error; no os.Exit/log.Fatal/panic in the loop; the scanner's split function is not replaced (an over-long line stops the run through scanner.Err, never truncated). (R3, argument) recursion depth of parser/walkers/serialiser is bounded by nesting depth <= line length <= bufio.MaxScanTokenSize. NOT decided: panics inside encoding/json, orderedmap, regexp, Tink.",
 		RuleText:    "obligations = every TypeAssert without comma-ok, every Index/IndexAddr/Slice/Lookup with a non-constant or unproven bound, every division, panic and MustCompile in the functions reachable from the scan loop; each discharged by guard facts (dominating branch edges) or an inter-procedural non-emptiness summary",
 	})
@@ -341,6 +341,18 @@ func ruleC07(c *Ctx, r *Report) {
 	}
 	splitCalls := callsIn(sf, func(k string, _ *ssa.Call) bool { return k == "(*bufio.Scanner).Split" })
 	r.Check(len(splitCalls) == 0, "C07-R2", sf.Name()+":default-split", c.Pos(sf.Pos()), "default line splitting: an over-long line ends the run through scanner.Err(), it is never truncated or passed through", "custom split function installed: over-long lines may be truncated or passed through")
+	// ---- R3 premise of the recursion bound: the token limit is not raised
+	r.Floor("C07-R3", 1, "scanner token limit")
+	bufCalls := callsIn(sf, func(k string, _ *ssa.Call) bool { return k == "(*bufio.Scanner).Buffer" })
+	if len(bufCalls) == 0 {
+		r.OK("C07-R3", sf.Name()+":token-limit", c.Pos(sf.Pos()), "the scanner keeps its default 64 KiB token limit: nesting depth of a line - and with it the recursion depth of parser, walkers and serialiser - is bounded far below the stack limit; a longer line ends the run through scanner.Err()")
+	}
+	for _, bc := range bufCalls {
+		max, isC := constInt(bc.Call.Args[2])
+		r.Check(isC && max <= 64*1024, "C07-R3", sf.Name()+":token-limit", c.InstrPos(bc),
+			fmt.Sprintf("scanner token limit is the constant %d (<= 64 KiB)", max),
+			"the scanner's token limit is raised beyond 64 KiB (or is not a constant): parser, walkers and serialiser recurse once per nesting level without a depth limit, so a deeply nested line can exhaust the stack - a fatal error that ends the run and loses the remaining lines")
+	}
 	r.Extra["recursion_bound_argument"] = "parser, walkers and serialiser recurse only on nesting; nesting depth <= line length <= bufio.MaxScanTokenSize (64 KiB, default scanner buffer, not enlarged), far below Go's 1 GB stack limit"
 }
 
